@@ -1,7 +1,741 @@
-//! C30 — not built yet.
-use vcore::Ctx;
+//! C30 — extensions are transparent and run their hooks in lifecycle order.
+//!
+//! Every request is executed twice on the same world: on a schema without extensions and on the same schema with a
+//! stack of 1–3 recording pass-through extensions (each hook logs enter, delegates to `next`, logs exit).
+//! Oracle 1 (transparency): both responses are equal (data incl. key order, errors as a multiset, `extensions`,
+//! cache policy, HTTP headers). Oracle 2 (trace grammar): `request[ prepare_request parse_query validation
+//! execute[ resolve* ] ]`, every hook of extension i+1 nested directly (and exactly once) inside the same hook of
+//! extension i, the first registered extension outermost, the lifecycle cut where the request stops, and
+//! `#resolve` = executed fields + completed list items of the reference executor.
+use crate::execcmp::*;
+use async_graphql::extensions::{
+    Extension, ExtensionContext, ExtensionFactory, NextExecute, NextParseQuery, NextPrepareRequest, NextRequest, NextResolve, NextValidation, ResolveInfo,
+};
+use async_graphql::parser::types::ExecutableDocument;
+use async_graphql::{Request, Response, ServerError, ServerResult, ValidationResult, Value, Variables};
+use std::sync::{Arc, Mutex};
+use vcore::{Case, Ctx, Src};
+use vgql::ast::*;
+use vgql::gensch::*;
+use vgql::gentyped::*;
+use vgql::print::print_plain;
+use vgql::refexec::{execute, Quirks, RefOut};
+use vgql::sch::Sch;
+use vgql::world::*;
+use vschemas::dynbuild::build_dynamic;
+use vschemas::rt::Rt;
+use vschemas::z::{build_z, z_sch, ZSchema};
 
-pub fn run(_ctx: &mut Ctx) {
-    eprintln!("C30: check not built yet");
-    std::process::exit(2);
+// ---------------------------------------------------------------------------------------------------------------
+// recording pass-through extensions
+
+#[derive(Clone, Copy, Debug, PartialEq, Eq)]
+enum Hook {
+    Request,
+    PrepareRequest,
+    ParseQuery,
+    Validation,
+    Execute,
+    Resolve,
+}
+impl Hook {
+    fn short(self) -> &'static str {
+        match self {
+            Hook::Request => "request",
+            Hook::PrepareRequest => "prepare_request",
+            Hook::ParseQuery => "parse_query",
+            Hook::Validation => "validation",
+            Hook::Execute => "execute",
+            Hook::Resolve => "resolve",
+        }
+    }
+}
+
+#[derive(Clone, Debug, PartialEq)]
+struct Ev {
+    ext: usize,
+    hook: Hook,
+    enter: bool,
+    /// `resolve` only: the hook was entered for a `__typename` field
+    typename: bool,
+}
+
+type Log = Arc<Mutex<Vec<Ev>>>;
+
+struct RecFactory {
+    idx: usize,
+    log: Log,
+}
+impl ExtensionFactory for RecFactory {
+    fn create(&self) -> Arc<dyn Extension> {
+        Arc::new(Rec { idx: self.idx, log: self.log.clone() })
+    }
+}
+struct Rec {
+    idx: usize,
+    log: Log,
+}
+impl Rec {
+    fn ev(&self, hook: Hook, enter: bool, typename: bool) {
+        self.log.lock().unwrap().push(Ev { ext: self.idx, hook, enter, typename });
+    }
+}
+
+#[async_trait::async_trait]
+impl Extension for Rec {
+    async fn request(&self, ctx: &ExtensionContext<'_>, next: NextRequest<'_>) -> Response {
+        self.ev(Hook::Request, true, false);
+        let r = next.run(ctx).await;
+        self.ev(Hook::Request, false, false);
+        r
+    }
+    async fn prepare_request(&self, ctx: &ExtensionContext<'_>, request: Request, next: NextPrepareRequest<'_>) -> ServerResult<Request> {
+        self.ev(Hook::PrepareRequest, true, false);
+        let r = next.run(ctx, request).await;
+        self.ev(Hook::PrepareRequest, false, false);
+        r
+    }
+    async fn parse_query(&self, ctx: &ExtensionContext<'_>, query: &str, variables: &Variables, next: NextParseQuery<'_>) -> ServerResult<ExecutableDocument> {
+        self.ev(Hook::ParseQuery, true, false);
+        let r = next.run(ctx, query, variables).await;
+        self.ev(Hook::ParseQuery, false, false);
+        r
+    }
+    async fn validation(&self, ctx: &ExtensionContext<'_>, next: NextValidation<'_>) -> Result<ValidationResult, Vec<ServerError>> {
+        self.ev(Hook::Validation, true, false);
+        let r = next.run(ctx).await;
+        self.ev(Hook::Validation, false, false);
+        r
+    }
+    async fn execute(&self, ctx: &ExtensionContext<'_>, operation_name: Option<&str>, next: NextExecute<'_>) -> Response {
+        self.ev(Hook::Execute, true, false);
+        let r = next.run(ctx, operation_name).await;
+        self.ev(Hook::Execute, false, false);
+        r
+    }
+    async fn resolve(&self, ctx: &ExtensionContext<'_>, info: ResolveInfo<'_>, next: NextResolve<'_>) -> ServerResult<Option<Value>> {
+        let typename = info.name == "__typename";
+        self.ev(Hook::Resolve, true, typename);
+        let r = next.run(ctx, info).await;
+        self.ev(Hook::Resolve, false, typename);
+        r
+    }
+}
+
+fn show_trace(evs: &[Ev]) -> String {
+    let mut s = String::new();
+    for e in evs.iter().take(120) {
+        s.push_str(&format!("{}{}{} ", if e.enter { "+" } else { "-" }, e.ext, e.hook.short()));
+    }
+    if evs.len() > 120 {
+        s.push_str(&format!("… ({} events)", evs.len()));
+    }
+    s
+}
+
+struct Trace {
+    /// lifecycle hooks seen inside `request`, in order
+    stages: Vec<Hook>,
+    /// `resolve` invocations (per extension — the nesting check makes the count equal for all of them)
+    resolves: usize,
+    typename_resolves: usize,
+}
+
+/// The trace grammar. `n` = number of registered extensions; extension 0 was registered first.
+fn check_trace(n: usize, evs: &[Ev]) -> Result<Trace, String> {
+    let mut t = Trace { stages: vec![], resolves: 0, typename_resolves: 0 };
+    if n == 0 {
+        return if evs.is_empty() { Ok(t) } else { Err("hooks ran although no extension is registered".into()) };
+    }
+    // stack of open hooks: (extension, hook, number of times it delegated to the next extension's same hook)
+    let mut stack: Vec<(usize, Hook, usize)> = vec![];
+    let mut requests = 0;
+    for (i, e) in evs.iter().enumerate() {
+        let at = |what: &str| format!("event {} ({}{} of extension {}): {}", i, if e.enter { "enter " } else { "exit " }, e.hook.short(), e.ext, what);
+        if e.ext >= n {
+            return Err(at("extension index out of range"));
+        }
+        if e.enter {
+            if e.ext == 0 {
+                let top = stack.last().map(|x| (x.0, x.1));
+                let ok = match e.hook {
+                    Hook::Request => stack.is_empty(),
+                    Hook::PrepareRequest | Hook::ParseQuery | Hook::Validation | Hook::Execute => top == Some((n - 1, Hook::Request)),
+                    Hook::Resolve => top == Some((n - 1, Hook::Execute)) || top == Some((n - 1, Hook::Resolve)),
+                };
+                if !ok {
+                    return Err(at("the first registered extension's hook does not start where the grammar allows it (request at top level; prepare_request, parse_query, validation, execute directly inside the innermost request; resolve inside the innermost execute or resolve)"));
+                }
+                match e.hook {
+                    Hook::Request => requests += 1,
+                    Hook::Resolve => {
+                        t.resolves += 1;
+                        if e.typename {
+                            t.typename_resolves += 1;
+                        }
+                    }
+                    h => t.stages.push(h),
+                }
+            } else {
+                match stack.last_mut() {
+                    Some(top) if top.0 == e.ext - 1 && top.1 == e.hook => {
+                        if top.2 != 0 {
+                            return Err(at("the enclosing extension's hook reached this extension a second time"));
+                        }
+                        top.2 += 1;
+                    }
+                    _ => return Err(at("not nested directly inside the same hook of the extension registered before it")),
+                }
+            }
+            stack.push((e.ext, e.hook, 0));
+        } else {
+            match stack.pop() {
+                Some((x, h, delegated)) if x == e.ext && h == e.hook => {
+                    if x + 1 < n && delegated != 1 {
+                        return Err(at("hook finished without the next extension's hook having run inside it"));
+                    }
+                }
+                _ => return Err(at("exit does not mirror the enters (hooks are not properly nested)")),
+            }
+        }
+    }
+    if !stack.is_empty() {
+        return Err("trace ends with hooks still open".into());
+    }
+    if requests != 1 {
+        return Err(format!("the request hook ran {} times", requests));
+    }
+    Ok(t)
+}
+
+// ---------------------------------------------------------------------------------------------------------------
+// requests: valid documents and four kinds of damaged ones
+
+#[derive(Clone, Copy, Debug, PartialEq)]
+enum Kind {
+    Valid,
+    Syntax,
+    UnknownField,
+    UnknownOperation,
+    MissingVariable,
+}
+impl Kind {
+    fn label(self) -> &'static str {
+        match self {
+            Kind::Valid => "valid",
+            Kind::Syntax => "syntax-error",
+            Kind::UnknownField => "unknown-field",
+            Kind::UnknownOperation => "unknown-operation-name",
+            Kind::MissingVariable => "missing-required-variable",
+        }
+    }
+}
+
+struct Req {
+    kind: Kind,
+    text: String,
+    td: TypedDoc,
+    op_name: Option<String>,
+}
+
+/// all selection sets of the document, addressed by a walk: push an unknown field into the k-th one
+fn add_unknown_field(doc: &mut Doc, mut k: usize) {
+    fn walk(s: &mut SelSet, k: &mut usize, done: &mut bool) {
+        if *done {
+            return;
+        }
+        if *k == 0 {
+            s.items.push(Selection::Field(Field::new("zzNoSuchField")));
+            *done = true;
+            return;
+        }
+        *k -= 1;
+        for it in &mut s.items {
+            match it {
+                Selection::Field(f) if !f.sel.items.is_empty() => walk(&mut f.sel, k, done),
+                Selection::Inline(i) => walk(&mut i.sel, k, done),
+                _ => {}
+            }
+        }
+    }
+    let mut done = false;
+    for d in &mut doc.defs {
+        match d {
+            Def::Op(o) => walk(&mut o.sel, &mut k, &mut done),
+            Def::Frag(f) => walk(&mut f.sel, &mut k, &mut done),
+        }
+    }
+    if !done {
+        if let Some(Def::Op(o)) = doc.defs.first_mut() {
+            o.sel.items.push(Selection::Field(Field::new("zzNoSuchField")));
+        }
+    }
+}
+
+fn gen_req(sch: &Sch, s: &mut dyn Src, tcfg: &TypedCfg) -> Req {
+    // kind and damage position are drawn before the document so that an exhausted choice vector does not bias them
+    let kind = match s.weighted(&[6, 1, 1, 1, 1]) {
+        0 => Kind::Valid,
+        1 => Kind::Syntax,
+        2 => Kind::UnknownField,
+        3 => Kind::UnknownOperation,
+        _ => Kind::MissingVariable,
+    };
+    let where_ = s.choose(6);
+    let mut td = gen_typed_doc(sch, s, tcfg);
+    let mut op_name = td.op_name.clone();
+    match kind {
+        Kind::UnknownField => add_unknown_field(&mut td.doc, where_),
+        Kind::MissingVariable => {
+            if let Some(Def::Op(o)) = td.doc.defs.first_mut() {
+                o.explicit = true;
+                o.vars.push(VarDef { pos: Pos::default(), name: Name::new("zzReq"), ty: PTy { pos: Pos::default(), ty: Ty::nn(Ty::named("Boolean")) }, default: None, directives: vec![] });
+                let mut f = Field::new("__typename");
+                f.alias = Some(Name::new("zz"));
+                f.directives = vec![Directive::new("include", vec![("if", Val::Var("zzReq".into()))])];
+                o.sel.items.push(Selection::Field(f));
+            }
+        }
+        Kind::UnknownOperation => op_name = Some("ZzNoSuchOperation".into()),
+        _ => {}
+    }
+    let mut text = print_plain(&mut td.doc);
+    if kind == Kind::Syntax {
+        // damage that cannot be absorbed by a string or a comment: the braces of the document no longer balance
+        text = match where_ % 4 {
+            0 => format!("{} }}", text),
+            1 => format!("}} {}", text),
+            2 => format!("{} {{", text),
+            _ => match text.rfind('}') {
+                Some(i) => text[..i].to_string(),
+                None => String::new(),
+            },
+        };
+    }
+    Req { kind, text, td, op_name }
+}
+
+fn ag_request(r: &Req) -> Request {
+    request(&r.text, &r.td.vars, r.op_name.as_deref())
+}
+
+// ---------------------------------------------------------------------------------------------------------------
+// oracles
+
+fn error_multiset(r: &Response) -> Vec<String> {
+    let mut v: Vec<String> = r.errors.iter().map(|e| serde_json::to_string(e).unwrap_or_else(|_| format!("{:?}", e))).collect();
+    v.sort();
+    v
+}
+
+fn transparent(base: &Response, with: &Response) -> Result<(), String> {
+    let (a, b) = (serde_json::to_string(&base.data).unwrap(), serde_json::to_string(&with.data).unwrap());
+    if a != b {
+        return Err(format!("data differs: without extensions {} with extensions {}", a, b));
+    }
+    let (ea, eb) = (error_multiset(base), error_multiset(with));
+    if ea != eb {
+        return Err(format!("errors differ: without extensions {:?} with extensions {:?}", ea, eb));
+    }
+    if base.extensions != with.extensions {
+        return Err(format!("response extensions differ: {:?} vs {:?}", base.extensions, with.extensions));
+    }
+    if base.cache_control != with.cache_control {
+        return Err(format!("cache policy differs: {:?} vs {:?}", base.cache_control, with.cache_control));
+    }
+    if base.http_headers != with.http_headers {
+        return Err(format!("HTTP headers differ: {:?} vs {:?}", base.http_headers, with.http_headers));
+    }
+    Ok(())
+}
+
+struct Judged {
+    resolves: usize,
+    counted: bool,
+}
+
+/// `want` = the reference executor's result for a valid request (None: the reference and the extension-free run
+/// disagree about data/errors, which is C01/C02's subject — then only the count oracle is skipped).
+fn judge(kind: Kind, n: usize, base: &Response, with: &Response, evs: &[Ev], want: Option<&RefOut>) -> Result<Judged, String> {
+    transparent(base, with)?;
+    let t = check_trace(n, evs).map_err(|e| format!("trace grammar: {}; trace: {}", e, show_trace(evs)))?;
+    use Hook::*;
+    let full = [PrepareRequest, ParseQuery, Validation, Execute];
+    let allowed: &[usize] = match kind {
+        Kind::Valid => &[4],
+        Kind::Syntax => &[2],
+        Kind::UnknownField => &[3],
+        Kind::UnknownOperation => &[2, 3],
+        Kind::MissingVariable => &[3, 4],
+    };
+    if t.stages != full[..t.stages.len().min(4)] || !allowed.contains(&t.stages.len()) {
+        return Err(format!(
+            "lifecycle: a {} request ran the hooks [{}]; expected {}; trace: {}",
+            kind.label(),
+            t.stages.iter().map(|h| h.short()).collect::<Vec<_>>().join(" "),
+            allowed.iter().map(|k| format!("[{}]", full[..*k].iter().map(|h| h.short()).collect::<Vec<_>>().join(" "))).collect::<Vec<_>>().join(" or "),
+            show_trace(evs)
+        ));
+    }
+    let mut counted = false;
+    if let (Kind::Valid, Some(w)) = (kind, want) {
+        let expect = w.touches.len() + w.list_items;
+        let got = t.resolves - t.typename_resolves;
+        if got != expect {
+            return Err(format!(
+                "resolve ran {} times per extension (not counting {} for __typename); the reference execution resolves {} fields and completes {} list items = {}",
+                got,
+                t.typename_resolves,
+                w.touches.len(),
+                w.list_items,
+                expect
+            ));
+        }
+        counted = true;
+    }
+    Ok(Judged { resolves: t.resolves, counted })
+}
+
+fn classify(c: Case, r: &Req, n: usize, flavour: &str, j: Option<&Judged>, want: Option<&RefOut>) -> Case {
+    let lists = want.map_or(false, |w| w.list_items > 0);
+    let resolves = j.map_or(0, |j| j.resolves);
+    let mutation = matches!(r.td.doc.defs.first(), Some(Def::Op(o)) if o.kind == OpKind::Mutation);
+    let nontrivial = r.kind != Kind::Valid || (n >= 2 && resolves >= 2);
+    let nt = c.nontrivial || nontrivial;
+    c.nontrivial(nt)
+        .class(r.kind.label())
+        .class(format!("{}-extensions", n))
+        .class(flavour.to_string())
+        .class_if(lists, "list-items-resolved")
+        .class_if(resolves >= 10, "resolves>=10")
+        .class_if(mutation, "mutation")
+        .class_if(r.kind == Kind::Valid && j.map_or(false, |j| !j.counted), "reference-disagrees(count-not-checked)")
+        .class_if(r.td.stats.named_fragments > 0, "named-fragment")
+}
+
+fn take(log: &Log) -> Vec<Ev> {
+    std::mem::take(&mut *log.lock().unwrap())
+}
+
+fn reference(sch: &Sch, r: &Req, world: &World, base: &Response) -> Option<RefOut> {
+    if r.kind != Kind::Valid {
+        return None;
+    }
+    let w = execute(sch, &r.td.doc, r.td.op_name.as_deref(), &r.td.vars, world, Quirks::default()).ok()?;
+    compare(&w, base).ok()?;
+    Some(w)
+}
+
+// ---------------------------------------------------------------------------------------------------------------
+// static Z
+
+struct Stack<S> {
+    schemas: Vec<S>,
+    log: Log,
+}
+
+fn z_stack() -> Stack<ZSchema> {
+    let log: Log = Default::default();
+    let schemas = (0..=3usize)
+        .map(|n| {
+            build_z(|mut b| {
+                for idx in 0..n {
+                    b = b.extension(RecFactory { idx, log: log.clone() });
+                }
+                b
+            })
+        })
+        .collect();
+    Stack { schemas, log }
+}
+
+fn static_case(st: &Stack<ZSchema>, sch: &Sch, s: &mut dyn Src, tcfg: &TypedCfg) -> Case {
+    let n = 1 + s.choose(3);
+    let world = gen_world(sch, s, &WorldCfg::default());
+    let r = gen_req(sch, s, tcfg);
+    let rendered = format!("static Z, {} extensions, {} request\nworld: {}\nquery: {}\nvariables: {}\noperationName: {:?}", n, r.kind.label(), world.show(), r.text, vars_json(&r.td.vars), r.op_name);
+    let rt = Rt::new(world.clone());
+    let base = vcore::det::block_on(st.schemas[0].execute(ag_request(&r).data(rt.clone())));
+    if !take(&st.log).is_empty() {
+        return Case::fail(rendered, "hooks ran on the schema without extensions");
+    }
+    let with = vcore::det::block_on(st.schemas[n].execute(ag_request(&r).data(rt)));
+    let evs = take(&st.log);
+    let want = reference(sch, &r, &world, &base);
+    match judge(r.kind, n, &base, &with, &evs, want.as_ref()) {
+        Ok(j) => classify(Case::pass(rendered), &r, n, "static", Some(&j), want.as_ref()),
+        Err(e) => classify(Case::fail(rendered, e), &r, n, "static", None, want.as_ref()),
+    }
+}
+
+// ---------------------------------------------------------------------------------------------------------------
+// dynamic schemas (the mirror of Z, or a random type system)
+
+fn dynamic_case(fixed: Option<&Sch>, s: &mut dyn Src, tcfg: &TypedCfg) -> Case {
+    let n = 1 + s.choose(3);
+    let gen;
+    let (sch, flavour): (&Sch, &str) = match fixed {
+        Some(x) => (x, "dynamic-mirror-of-Z"),
+        None => {
+            gen = gen_sch(s, &SchCfg::default());
+            (&gen, "dynamic-random")
+        }
+    };
+    let world = gen_world(sch, s, &WorldCfg { null_composite_items: false, ..WorldCfg::default() });
+    let r = gen_req(sch, s, tcfg);
+    let rendered = format!(
+        "{}, {} extensions, {} request\n{}world: {}\nquery: {}\nvariables: {}\noperationName: {:?}",
+        flavour,
+        n,
+        r.kind.label(),
+        if fixed.is_none() { format!("schema: {}\n", show_sch(sch)) } else { String::new() },
+        world.show(),
+        r.text,
+        vars_json(&r.td.vars),
+        r.op_name
+    );
+    let rt = Rt::new(world.clone());
+    let log: Log = Default::default();
+    let plain = match build_dynamic(sch, &rt, |b| b) {
+        Ok(x) => x,
+        Err(e) => return Case::fail(rendered, format!("HARNESS: generated schema does not build: {}", e)),
+    };
+    let stacked = match build_dynamic(sch, &rt, |mut b| {
+        for idx in 0..n {
+            b = b.extension(RecFactory { idx, log: log.clone() });
+        }
+        b
+    }) {
+        Ok(x) => x,
+        Err(e) => return Case::fail(rendered, format!("HARNESS: generated schema does not build with extensions: {}", e)),
+    };
+    let base = vcore::det::block_on(plain.execute(ag_request(&r)));
+    let with = vcore::det::block_on(stacked.execute(ag_request(&r)));
+    let evs = take(&log);
+    let want = reference(sch, &r, &world, &base);
+    match judge(r.kind, n, &base, &with, &evs, want.as_ref()) {
+        Ok(j) => classify(Case::pass(rendered), &r, n, flavour, Some(&j), want.as_ref()),
+        Err(e) => classify(Case::fail(rendered, e), &r, n, flavour, None, want.as_ref()),
+    }
+}
+
+// ---------------------------------------------------------------------------------------------------------------
+// a derive-built schema with the object flavours whose Rust type and GraphQL type differ in shape: merged objects
+// (query root, mutation root and a nested one), a flattened field, a generic object with concrete names; plus a
+// cache hint and a resolver that sets an HTTP header, so that cache policy and headers of the response are not
+// trivially empty. The extension-enabled field path looks the field up in the registry by `T::type_name()`.
+
+mod m {
+    use async_graphql::*;
+
+    #[derive(SimpleObject)]
+    #[graphql(concrete(name = "IntBox", params(i32)), concrete(name = "StrBox", params(String)))]
+    pub struct GBox<T: OutputType> {
+        pub value: T,
+        pub items: Vec<T>,
+    }
+    pub fn ibox() -> GBox<i32> {
+        GBox { value: 5, items: vec![5, 6] }
+    }
+    pub fn sbox() -> GBox<String> {
+        GBox { value: "s".into(), items: vec!["a".into(), "b".into(), "c".into()] }
+    }
+
+    #[derive(SimpleObject)]
+    pub struct Inner {
+        pub in1: i32,
+        pub in2: Option<String>,
+        pub in_list: Vec<i32>,
+    }
+
+    #[derive(SimpleObject)]
+    pub struct Flat {
+        pub own: i32,
+        #[graphql(flatten)]
+        pub inner: Inner,
+        pub ibox: GBox<i32>,
+    }
+    pub fn flat() -> Flat {
+        Flat { own: 2, inner: Inner { in1: 3, in2: Some("x".into()), in_list: vec![1, 2] }, ibox: ibox() }
+    }
+
+    #[derive(SimpleObject)]
+    pub struct HalfA {
+        pub ha: i32,
+        pub flat: Flat,
+    }
+    pub struct HalfB;
+    #[Object]
+    impl HalfB {
+        async fn hb(&self, #[graphql(default = 1)] x: i32) -> String {
+            let _ = x;
+            "hb".into()
+        }
+        #[graphql(cache_control(max_age = 30))]
+        async fn cached(&self) -> i32 {
+            9
+        }
+        async fn sboxes(&self) -> Vec<GBox<String>> {
+            vec![sbox()]
+        }
+    }
+    #[derive(MergedObject)]
+    pub struct Both(pub HalfA, pub HalfB);
+    pub fn both() -> Both {
+        Both(HalfA { ha: 4, flat: flat() }, HalfB)
+    }
+
+    #[derive(SimpleObject)]
+    pub struct QA {
+        pub qa: i32,
+        pub flat: Flat,
+    }
+    pub struct QB;
+    #[Object]
+    impl QB {
+        async fn ibox(&self) -> GBox<i32> {
+            ibox()
+        }
+        async fn sbox(&self) -> Option<GBox<String>> {
+            Some(sbox())
+        }
+        async fn both(&self) -> Both {
+            both()
+        }
+        async fn boths(&self) -> Vec<Both> {
+            vec![both(), both()]
+        }
+        async fn hdr(&self, ctx: &Context<'_>) -> i32 {
+            ctx.insert_http_header("x-verif", "1");
+            7
+        }
+    }
+    #[derive(MergedObject)]
+    pub struct MQuery(pub QA, pub QB);
+
+    #[derive(SimpleObject)]
+    pub struct MA {
+        pub ma: i32,
+    }
+    pub struct MB;
+    #[Object]
+    impl MB {
+        async fn set(&self, v: Option<i32>) -> Both {
+            let _ = v;
+            both()
+        }
+    }
+    #[derive(MergedObject)]
+    pub struct MMutation(pub MA, pub MB);
+
+    pub type MSchema = Schema<MQuery, MMutation, EmptySubscription>;
+    pub fn build(configure: impl FnOnce(SchemaBuilder<MQuery, MMutation, EmptySubscription>) -> SchemaBuilder<MQuery, MMutation, EmptySubscription>) -> MSchema {
+        configure(Schema::build(MQuery(QA { qa: 1, flat: flat() }, QB), MMutation(MA { ma: 1 }, MB), EmptySubscription)).finish()
+    }
+}
+
+/// the data the resolvers of `m` return, as a world for the reference executor
+fn m_world() -> World {
+    use WVal::*;
+    let ints = |v: &[i64]| List(v.iter().map(|i| Int(*i)).collect());
+    let node = |ty: &str, fields: Vec<(&str, WVal)>| Node { ty: ty.into(), fields: fields.into_iter().map(|(k, v)| (k.to_string(), v)).collect() };
+    let (f, ib, sb, b) = (2, 3, 4, 5);
+    World {
+        nodes: vec![
+            node("MQuery", vec![("qa", Int(1)), ("flat", Ref(f)), ("ibox", Ref(ib)), ("sbox", Ref(sb)), ("both", Ref(b)), ("boths", List(vec![Ref(b), Ref(b)])), ("hdr", Int(7))]),
+            node("MMutation", vec![("ma", Int(1)), ("set", Ref(b))]),
+            node("Flat", vec![("own", Int(2)), ("in1", Int(3)), ("in2", Str("x".into())), ("inList", ints(&[1, 2])), ("ibox", Ref(ib))]),
+            node("IntBox", vec![("value", Int(5)), ("items", ints(&[5, 6]))]),
+            node("StrBox", vec![("value", Str("s".into())), ("items", List(vec![Str("a".into()), Str("b".into()), Str("c".into())]))]),
+            node("Both", vec![("ha", Int(4)), ("flat", Ref(f)), ("hb", Str("hb".into())), ("cached", Int(9)), ("sboxes", List(vec![Ref(sb)]))]),
+        ],
+        query_root: 0,
+        mutation_root: Some(1),
+        subscription_root: None,
+        faults: Default::default(),
+    }
+}
+
+fn m_stack() -> Stack<m::MSchema> {
+    let log: Log = Default::default();
+    let schemas = (0..=3usize)
+        .map(|n| {
+            m::build(|mut b| {
+                for idx in 0..n {
+                    b = b.extension(RecFactory { idx, log: log.clone() });
+                }
+                b
+            })
+        })
+        .collect();
+    Stack { schemas, log }
+}
+
+fn merged_case(st: &Stack<m::MSchema>, sch: &Sch, world: &World, s: &mut dyn Src, tcfg: &TypedCfg) -> Case {
+    let n = 1 + s.choose(3);
+    let r = gen_req(sch, s, tcfg);
+    let rendered = format!("static merged/flattened/generic schema, {} extensions, {} request\nquery: {}\nvariables: {}\noperationName: {:?}", n, r.kind.label(), r.text, vars_json(&r.td.vars), r.op_name);
+    let base = vcore::det::block_on(st.schemas[0].execute(ag_request(&r)));
+    if !take(&st.log).is_empty() {
+        return Case::fail(rendered, "hooks ran on the schema without extensions");
+    }
+    let with = vcore::det::block_on(st.schemas[n].execute(ag_request(&r)));
+    let evs = take(&st.log);
+    let want = reference(sch, &r, world, &base);
+    let c = match judge(r.kind, n, &base, &with, &evs, want.as_ref()) {
+        Ok(j) => classify(Case::pass(rendered), &r, n, "static-merged-flattened-generic", Some(&j), want.as_ref()),
+        Err(e) => classify(Case::fail(rendered, e), &r, n, "static-merged-flattened-generic", None, want.as_ref()),
+    };
+    c.class_if(!base.http_headers.is_empty(), "http-header-set").class_if(format!("{:?}", base.cache_control) != format!("{:?}", async_graphql::CacheControl::default()), "cache-policy-set")
+}
+
+pub fn run(ctx: &mut Ctx) {
+    ctx.rule = "a request (type-directed valid query/mutation with fragments, directives and variables, or one damaged into a syntax error / unknown field / unknown operation name / \
+                missing required variable) is executed on a data world without extensions and with a stack of 1-3 recording pass-through extensions; schemas: static Z, a static \
+                schema built from merged, flattened and generic objects, the dynamic mirror of Z, random dynamic type systems. Non-trivial = an invalid request, or a valid one \
+                with >= 2 extensions and >= 2 resolve invocations; distinct by rendered (schema, extension count, world, query, variables, operation name)"
+        .into();
+    ctx.assume("'nested in registration order' is read as: the extension registered first is the outermost one (its hook starts first and finishes last), the next one runs directly inside it, and so on");
+    ctx.assume("resolvers are not gated, so execution is sequential and the recorded trace is a well-nested word; concurrency of sibling fields is not part of this check");
+    ctx.assume("__typename is answered without a resolver: resolve invocations for __typename are neither required nor forbidden and are left out of the count");
+    ctx.assume("an unknown operation name may stop the request before or after validation; a missing required variable may stop it at validation or inside execute (where variable coercion happens is not fixed by the statement); then the number of resolve invocations is not constrained");
+    ctx.assume("response keys are unique within every selection set (TypedCfg.repeats = false): repeated keys are executed once per occurrence (open finding C04-F1), which makes the reference count undefined");
+    ctx.assume("if the reference executor and the extension-free run disagree about the response (the subject of C01/C02), transparency and the grammar are still checked and only the resolve count is skipped (class reference-disagrees)");
+    ctx.assume("the subscribe hook and execute_stream are out of scope (the statement lists request, prepare_request, parse_query, validation, execute, resolve)");
+    if ctx.open("C04-F1") {
+        ctx.excluded("C04-F1");
+    }
+    let mut tcfg = crate::c02::typed_cfg(ctx, "C01");
+    tcfg.repeats = false;
+    tcfg.ops = vec![OpKind::Query, OpKind::Query, OpKind::Mutation];
+    let mut dcfg = crate::c02::typed_cfg(ctx, "C02");
+    dcfg.repeats = false;
+    dcfg.ops = vec![OpKind::Query, OpKind::Query, OpKind::Mutation];
+
+    let zs = z_stack();
+    let zsch = z_sch(&zs.schemas[0]);
+    let n = ctx.tier.pick(16_000, 500_000);
+    ctx.stream("static-z", n, 700, |s| static_case(&zs, &zsch, s, &tcfg));
+
+    let ms = m_stack();
+    let mut msch = vgql::sch::from_sdl_text(&ms.schemas[0].sdl()).expect("SDL of the merged schema must be readable by the reference parser");
+    for b in vgql::sch::BUILTIN_SCALARS {
+        msch.types.shift_remove(b);
+    }
+    let mworld = m_world();
+    ctx.stream("static-merged", n / 2, 500, |s| merged_case(&ms, &msch, &mworld, s, &tcfg));
+
+    ctx.stream("dynamic-mirror-of-z", n / 2, 700, |s| dynamic_case(Some(&zsch), s, &dcfg));
+    ctx.stream("dynamic-random", n, 700, |s| dynamic_case(None, s, &dcfg));
+
+    ctx.floor("valid", 2_000);
+    ctx.floor("syntax-error", 300);
+    ctx.floor("unknown-field", 300);
+    ctx.floor("unknown-operation-name", 300);
+    ctx.floor("missing-required-variable", 300);
+    ctx.floor("3-extensions", 1_000);
+    ctx.floor("list-items-resolved", 500);
+    ctx.floor("mutation", 300);
+    ctx.floor("cache-policy-set", 50);
+    ctx.floor("http-header-set", 50);
 }
